@@ -28,7 +28,7 @@ WORLD_INFO = {'real': ['cassandra.connection.Connection (send_msg, defunct, erro
               'stub': ['libev C binding', 'sockets/TCP', 'scripted peer', 'sender/closer threads (harness)']}
 ASSUMPTIONS = ['a request whose OWN response frame is undecodable may receive that decode exception instead of a connection error',
                'heartbeat failure is represented by what ConnectionHeartbeat does on failure: connection.defunct(exc) from another thread (the heartbeat itself is C44)']
-REQUIRED_PROBES = ['failure_with_outstanding', 'error_thread_path', 'send_after_failure', 'cp_session']
+REQUIRED_PROBES = ['failure_with_outstanding', 'error_thread_path', 'send_after_failure', 'cp_session', 'concurrent_failures']
 
 KINDS = ['rst', 'eof', 'garbage_body', 'protocol_error', 'negative_len', 'bad_version', 'close_thread',
          'defunct_thread', 'write_error']
@@ -50,7 +50,8 @@ def gen_plan(rng, tier):
         'nthreads': nthreads,
         'requests': reqs,
         'failure': {'kind': rng.choice(KINDS), 'after': rng.randrange(0, n + 1), 'delay': rng.choice([0, 0, 0.0005, 0.003, 0.02])},
-        'cp': rng.random() < 0.25,
+        'failure2': rng.choice([None, None, 'defunct_thread', 'close_thread', 'rst']),
+        'cp': rng.random() < 0.3,
         'extra_sends': rng.choice([0, 1, 3]),
         'chunk_mode': rng.choice(['whole', 'mixed']),
         'strategy': gen_strategy(rng),
@@ -187,9 +188,18 @@ def run_plan(plan, seed, choices=None):
             setattr(conn, name, wrapper)
 
     def inject(pc):
+        inject_kind(pc, fkind)
+        k2 = plan.get('failure2')
+        if k2:
+            # a second, concurrent failure from another source (e.g. heartbeat thread + socket error)
+            sim.probe('concurrent_failures')
+            inject_kind(pc, k2)
+
+    def inject_kind(pc, fkind):
         conn = st['conn']
-        st['fail_at'] = sim.nlog
-        st['outstanding_at_failure'] = sum(1 for h in handlers.values() if h['registered'] and not h['calls'])
+        if st['fail_at'] is None:
+            st['outstanding_at_failure'] = sum(1 for h in handlers.values() if h['registered'] and not h['calls'])
+        st['fail_at'] = sim.nlog if st['fail_at'] is None else st['fail_at']
         sim.rec('fault', fkind)
         w.net.count(fkind)
         v = version
@@ -314,7 +324,7 @@ def run_plan(plan, seed, choices=None):
         V.check('C10/cp-once')
         errs = [x for x in st['cp_seen'] if x[1] == 'error']
         if failed and len(errs) == 0:
-            V.add('C10/cp-once', 'cp-never-errored-after-plain-close' if fkind in ('close_thread', 'eof') else 'cp-never-errored',
+            V.add('C10/cp-once', 'cp-never-errored-after-plain-close' if (conn.is_closed and not conn.is_defunct) else 'cp-never-errored',
                   'continuous paging consumer never saw an error after %s (consumer %s)' % (fkind, 'finished' if st['cp_done'] else 'still waiting at the horizon'))
         elif len(errs) > 1:
             V.add('C10/cp-once', 'cp-error-twice', 'consumer saw %r' % (st['cp_seen'],))
